@@ -46,6 +46,14 @@ func (p *Prog) BCEReport() (map[string]bool, error) {
 	if p.Tags != "" {
 		args = append(args, "-tags="+p.Tags)
 	}
+	if len(p.Overlay) > 0 {
+		js, cleanup, err := writeBuildOverlay(p.Overlay)
+		if err != nil {
+			return nil, err
+		}
+		defer cleanup()
+		args = append(args, "-overlay="+js)
+	}
 	args = append(args, "./...")
 	cmd := exec.Command("go", args...)
 	cmd.Dir = p.Dir
@@ -1623,7 +1631,6 @@ func allReturnsNonNilPointer(fn *ssa.Function) bool {
 	}
 	return n > 0
 }
-
 
 // reflectCallResult: the slice is the result of reflect.Value.Call, directly or as a parameter that every caller in
 // the package fills with one.
